@@ -134,6 +134,18 @@ def cases(tier, seed, shard, nshards):
                             continue
                         yield {"k": "join", "d": dl[k % 6], "base": base, "item": item, "l": lsrc, "r": rsrc, "samecol": samecol,
                                "form": form, "extra": [], "pre": [None, "siblings", "render", "copy"][(k // nshards) % 4]}
+    # the referenced column inside every operand slot of every term class (one and two levels deep): the validation finds the table
+    # wherever the column sits
+    f1, f2 = zoo_forms(False), zoo_forms(True)
+    for lsrc, rsrc in (("foreign", "item"), ("base", "item"), ("item", "base"), ("undeclared-cte", "item"), ("base-near", "item")):
+        for fi, form in enumerate(f1 + f2):
+            if form.startswith("zoo2") and tier == "quick" and (lsrc not in ("foreign", "base") or (lsrc == "base" and fi % 5)):
+                continue
+            k += 1
+            if k % nshards != shard:
+                continue
+            yield {"k": "join", "d": dl[k % 6], "base": "plain", "item": ["plain", "aliased", "subquery"][k % 3], "l": lsrc, "r": rsrc, "samecol": True,
+                   "form": form, "extra": [], "pre": None}
     rnd = random.Random("C14:%d:%d" % (seed, shard))
     for _ in range((40000 if tier == "quick" else 600000) // nshards):
         srcs = ["base", "item", "foreign", "base-copy", "item-copy", "prev-join", "update", "base2", "none", "foreign2",
@@ -188,6 +200,26 @@ def cases(tier, seed, shard, nshards):
             k += 1
             if k % nshards == shard:
                 yield {"k": "oneshot", "d": d, "name": name}
+
+
+_ZOO = None
+
+
+def _zoo_entries():
+    global _ZOO
+    if _ZOO is None:
+        from ..zoo import zoo
+        _ZOO = [e for e in zoo()[0] if e["cls"] not in ("Values",)]
+    return _ZOO
+
+
+def zoo_forms(two_levels):
+    ents = _zoo_entries()
+    one = [(e["label"], s_) for e in ents for s_ in range(e["arity"])]
+    if not two_levels:
+        return ["zoo|%s|%d" % x for x in one]
+    # (AtTimezone takes a column name, not a term: whatever it is given is written as one quoted identifier)
+    return ["zoo2|%s|%d|%s|%d" % (a + b) for a in one for b in one if a[0] != "AtTimezone"]
 
 
 # -------------------------------------------------------------------------------------------------------- joins
@@ -279,6 +311,27 @@ def run_join(case, mon):
         tbl = pool[src]
         f = reg["Field"](col, table=tbl)
         refs = [tbl]
+        if form.startswith("zoo"):
+            # the column sits in one operand slot of a term class of the zoo (zoo|<label>|<slot>), possibly two levels deep
+            # (zoo2|<outer>|<slot>|<inner>|<slot>); the other slots hold constants
+            parts = form.split("|")
+            ents = {e_["label"]: e_ for e_ in _zoo_entries()}
+
+            def put(label, slot, x):
+                e_ = ents[label]
+                ops = []
+                for i_ in range(e_["arity"]):
+                    if i_ == slot:
+                        ops.append((x == 1) if i_ in e_["crit_slots"] and not isinstance(x, reg["Criterion"]) else x)
+                    elif i_ in e_["crit_slots"]:
+                        ops.append(reg["ValueWrapper"](1) == reg["ValueWrapper"](1))
+                    else:
+                        ops.append(reg["ValueWrapper"](7))
+                return e_["make"](ops)
+            x = f
+            if parts[0] == "zoo2":
+                x = put(parts[3], int(parts[4]), x)
+            return put(parts[1], int(parts[2]), x), refs
         if form == "fn":
             return reg["fn.Coalesce"](f, 0), refs
         if form == "neg":
@@ -292,7 +345,17 @@ def run_join(case, mon):
 
     col_l = "x"
     col_r = "x" if case["samecol"] else "y"
-    lo, lrefs = operand(case["l"], col_l, case["form"])
+    try:
+        lo, lrefs = operand(case["l"], col_l, case["form"])
+    except Exception as e:
+        if not case["form"].startswith("zoo"):
+            raise
+        mon.count("zoo_operands_unbuildable")  # (a class that does not take this kind of operand in that slot)
+        mon.add("zoo_unbuildable", "%s:%s" % (case["form"].split("|")[1], type(e).__name__))
+        return
+    if case["form"].startswith("zoo"):
+        mon.count("zoo_operand_joins")
+        mon.add("zoo_cells", ":".join(case["form"].split("|")[1:3]))
     ro, rrefs = operand(case["r"], col_r, "plain")
     crit = reg["BasicCriterion"](reg["Equality"].eq, lo, ro)
     refs = lrefs + rrefs
@@ -736,5 +799,5 @@ def run_case(case, mon):
 
 
 def FLOORS(tier):
-    return {"join_calls": 5000, "join_invalid_by_reference": 1000, "join_valid_by_reference": 1000, "setop_renders": 300,
+    return {"zoo_operand_joins": 5000, "join_calls": 5000, "join_invalid_by_reference": 1000, "join_valid_by_reference": 1000, "setop_renders": 300,
             "case_renders": 100, "conflict_sequences": 1000, "returning_calls": 100, "oneshot_cases": 100}
